@@ -22,12 +22,18 @@ def _c(n):
     return ["c", str(n)]
 
 
-def expr_of(st, name, by):
-    """Layout expression (prefix tokens) of the value of field `name` of top-level struct st."""
+def expr_of(st, name, by, env=None):
+    """Layout expression (prefix tokens) of the value of field `name` of struct st.  env: runtime
+    parameters of st -> expression of the argument in the enclosing (top-level) struct; physical
+    fields are only read at the top level (static byte offsets from the start of the buffer)."""
+    if env and name in env:
+        return env[name]
     f = by.get(name)
     if f is None:
         raise NoSrt("unknown name " + name)
     if not f.virtual:
+        if env is not None:
+            raise NoSrt("layout input read inside a nested struct")
         if f.cond or f.dyn_offset or f.ftype[0] != "scalar" or f.ftype[1].kind != "uint" or f.ftype[1].bits != 8 \
                 or st.kind != "struct":
             raise NoSrt("layout input %s is not a plain UInt:8" % name)
@@ -36,16 +42,16 @@ def expr_of(st, name, by):
     if sym is None:
         raise NoSrt("virtual %s has no symbolic form" % name)
     if sym[0] == "alias":
-        return expr_of(st, sym[1], by)
+        return expr_of(st, sym[1], by, env)
     op, src, k = sym
-    return [op] + expr_of(st, src, by) + _c(k)
+    return [op] + expr_of(st, src, by, env) + _c(k)
 
 
-def cond_expr(st, cond, by):
+def cond_expr(st, cond, by, env=None):
     if cond is None:
         return _c(1)
     name, v = cond
-    e = expr_of(st, name, by)
+    e = expr_of(st, name, by, env)
     if v is True:
         return e
     if v is False:
@@ -80,8 +86,9 @@ def _bits_leaves(bt, nbytes, order, base_bytes_expr, present, emitted, out, only
                 out.append(_leaf(em, 1, present, ["+", "*", "c", "8"] + base_bytes_expr + _c(addr)))
 
 
-def _value_leaves(ft, order, default_order, base_expr, present, emitted, orders, out):
-    """Leaves of a value of type ft at byte address expr `base_expr` (fixed-size types only)."""
+def _value_leaves(ft, order, default_order, base_expr, present, emitted, orders, out, env=None):
+    """Leaves of a value of type ft at byte address expr `base_expr` (fixed-size types only);
+    env: expressions for the runtime parameters of a struct-typed value."""
     if ft[0] == "scalar":
         out.append(_leaf(emitted, ft[1].bits, present, ["*", "c", "8"] + base_expr))
         return
@@ -90,16 +97,17 @@ def _value_leaves(ft, order, default_order, base_expr, present, emitted, orders,
         if st2.kind == "bits":
             _bits_leaves(st2, st2.static_size // 8, order or default_order, base_expr, present, emitted, out)
             return
-        _struct_leaves(st2, default_order, base_expr, present, emitted, orders, out, None)
+        _struct_leaves(st2, default_order, base_expr, present, emitted, orders, out, None, env or {})
         return
     _, elem, count = ft
     esz = G.elem_size(elem)
     for i in range(count):
-        _value_leaves(elem, order, default_order, ["+"] + base_expr + _c(i * esz), present, emitted, orders, out)
+        _value_leaves(elem, order, default_order, ["+"] + base_expr + _c(i * esz), present, emitted, orders, out, env)
 
 
-def _struct_leaves(st, default_order, base_expr, present0, emitted0, orders, out, counts):
-    """counts: {array field name: element count in the original buffer} for the top level."""
+def _struct_leaves(st, default_order, base_expr, present0, emitted0, orders, out, counts, env=None):
+    """counts: {array field name: element count in the original buffer} for the top level;
+    env: None at the top level, {parameter: expression} inside a nested struct."""
     by = G.field_by_name(st)
     top = counts is not None
     anon_of = {}
@@ -116,7 +124,7 @@ def _struct_leaves(st, default_order, base_expr, present0, emitted0, orders, out
         f = by[nm]
         if nm in anon_of:
             host = anon_of[nm]
-            present = _and(present0, cond_expr(st, host.cond, by) if top else _c(1))
+            present = _and(present0, cond_expr(st, host.cond, by, env) if top else _c(1))
             if host.cond and not top:
                 raise NoSrt("conditional field in a nested struct")
             _bits_leaves(host.anonymous_bits, host.size, default_order, ["+"] + base_expr + _c(host.offset),
@@ -136,28 +144,35 @@ def _struct_leaves(st, default_order, base_expr, present0, emitted0, orders, out
             out.append(_leaf(emitted0, s.size * 8 if st.kind == "struct" else s.size, present0,
                              ["*", "c", "8", "+"] + base_expr + _c(s.offset)))
             continue
-        if (f.cond or f.dyn_offset or f.dyn_count) and not top:
+        if (f.dyn_offset or f.dyn_count) and not top:
             raise NoSrt("dynamic field in a nested struct")
-        present = _and(present0, cond_expr(st, f.cond, by))
+        present = _and(present0, cond_expr(st, f.cond, by, env))
         em = emitted0 and f.attr != "Skip"
+        sub_env = None
+        if f.args:
+            ft0 = f.ftype
+            while ft0[0] == "array":
+                ft0 = ft0[1]
+            sub_env = {p: (expr_of(st, a, by, env) if isinstance(a, str) else _c(a))
+                       for p, a in zip(ft0[1].params, f.args)}
         addr = ["+"] + base_expr + _c(f.offset)
         if f.dyn_offset:
-            addr = ["+"] + addr + expr_of(st, f.dyn_offset, by)
+            addr = ["+"] + addr + expr_of(st, f.dyn_offset, by, env)
         if f.ftype[0] == "array":
             _, elem, count = f.ftype
             esz = G.elem_size(elem)
             if f.dyn_count:
-                cexpr = expr_of(st, f.dyn_count, by)
+                cexpr = expr_of(st, f.dyn_count, by, env)
                 n = counts.get(f.name, 0)
                 for i in range(n):
                     _value_leaves(elem, f.byte_order, default_order, ["+"] + addr + _c(i * esz),
-                                  _and(present, [">"] + cexpr + _c(i)), em, orders, out)
+                                  _and(present, [">"] + cexpr + _c(i)), em, orders, out, sub_env)
             else:
                 for i in range(count):
                     _value_leaves(elem, f.byte_order, default_order, ["+"] + addr + _c(i * esz), present, em,
-                                  orders, out)
+                                  orders, out, sub_env)
         else:
-            _value_leaves(f.ftype, f.byte_order, default_order, addr, present, em, orders, out)
+            _value_leaves(f.ftype, f.byte_order, default_order, addr, present, em, orders, out, sub_env)
 
 
 def srt_op(st, default_order, orders, built):
